@@ -2,6 +2,7 @@
 Byte equality over all sizes/segmentations is a runtime-value property and is NOT decided; decided are the
 structural conditions without which it cannot hold."""
 from mirlib import *
+from common import cancelled_io_findings
 
 H = "pgcat::client::Client::handle::{closure#0}"
 RECV = "pgcat::server::Server::recv::{closure#0}"
@@ -300,3 +301,15 @@ def run(ctx):
         rs = [c for c in rmb.calls("re:BytesMut::resize$")]
         okr = bool(rs) and bool(rex) and all(rmb.dominates(rs[0].block, c.block) for c in rex) and any(o.kind == "call" and re.search(r"read_i32$", o.call.name) for o in origins(rmb, rs[0].args[1], taint=True))
         r6.check(okr, "body-sized-from-length", "the body buffer is sized from the length field before it is read", "the buffer read into is not sized from the message's length field")
+
+    # ---------------- R7 a reply whose read was cancelled is never resumed
+    r7 = ctx.rule("C03-R7", "Server::recv is not cancel-safe (the code byte, the length and the part of the body already taken off the socket live in the cancelled future): "
+                  "wherever a timeout is put around a server read on the relay path, the elapsed arm marks the connection bad before the connection is read again or the function returns - "
+                  "a resumed read would frame the rest of the body as a new message and relay a well-formed but different reply", floor=1)
+    n = 0
+    for fn, ok, where, wit in cancelled_io_findings(F, scope=lambda n_: n_.startswith("pgcat::client::")):
+        n += 1
+        short = fn.split("::")[-2] if fn.endswith("{closure#0}") else fn.split("::")[-1]
+        r7.check(ok, "cancelled-read=>bad:" + short, "the elapsed arm of the timeout around the server read marks the connection bad before any further use", "after the timeout cancelled a server read mid-message the connection is read again (or handed on) without being marked bad", where, wit)
+    if n == 0:
+        r7.missing("timeout around Server::recv on the client path")
